@@ -635,6 +635,10 @@ class TransformedDStream(DStream):
 
         self._prev._step(time_)
         self._current_time = time_
+        if self._prev._current_rdd is None:
+            # the parent (a windowed stream before its first emission)
+            # has not produced an RDD yet
+            return
         self._current_rdd = self._func(time_, self._prev._current_rdd)
 
 
